@@ -27,7 +27,8 @@ def sql_of(p):
         else:
             f += f" JOIN {r} USING ({', '.join(sorted(j['cols']))})"
     ref = (p["ref"]["q"] + "." if p["ref"]["q"] else "") + p["ref"]["n"]
-    cte = "WITH t AS (SELECT a AS a, c AS b FROM u) " if p["cte"] else ""
+    ctes = (["t AS (SELECT a AS a, c AS b FROM u)"] if p["cte"] else []) + (["w AS (SELECT a AS a, c AS b FROM u)"] if p.get("ctew") else [])
+    cte = "WITH " + ", ".join(ctes) + " " if ctes else ""
     return f"{cte}SELECT {ref} AS r FROM {f}"
 
 
@@ -36,7 +37,9 @@ def tables():
         return {"n": n, "t": {"k": "int", "ivs": [[0, 5]]}, "c": None}
     return [{"name": "t", "size": 1, "cols": [col("a"), col("b")], "rows": [[1, 2]]},
             {"name": "u", "size": 1, "cols": [col("a"), col("c")], "rows": [[1, 3]]},
-            {"name": "v", "size": 1, "cols": [col("b"), col("c")], "rows": [[2, 3]]}]
+            {"name": "v", "size": 1, "cols": [col("b"), col("c")], "rows": [[2, 3]]},
+            # a base table under the two-part path s.w (markers 4 and 5); a CTE may be named w
+            {"name": "w", "path": ["s", "w"], "size": 1, "cols": [col("a"), col("b")], "rows": [[4, 5]]}]
 
 
 def run(tier, t0):
@@ -67,9 +70,16 @@ def run(tier, t0):
     if not any(j == "LookupRule" for _, j in f2):
         raise C.ToolError("binding self-test failed (hierarchy)")
     # ---- (2) column references in queries
-    r2 = C.tlc("MC_NameRes", "MC_NameRes.cfg", "nr_mc", workers=8, timeout=3000, constants={"MaxItems": 2 if tier == "quick" else 3}, heap="16g")
+    r2 = C.tlc("MC_NameRes", "MC_NameRes.cfg", "nr_mc", workers=8, timeout=3000, constants={"MaxItems": 2, "WithPath": "TRUE"}, heap="16g")
     C.require_model_ok(r2, "NameRes.tla")
     qs = r2.json_payloads("REPLAY")
+    if tier != "quick":
+        r3 = C.tlc("MC_NameRes", "MC_NameRes.cfg", "nr_mc3", workers=8, timeout=3000, constants={"MaxItems": 3, "WithPath": "FALSE"}, heap="16g")
+        C.require_model_ok(r3, "NameRes.tla (three items)")
+        have = {json.dumps(q, sort_keys=True) for q in qs}
+        qs += [q for q in r3.json_payloads("REPLAY") if json.dumps(q, sort_keys=True) not in have]
+        r2.distinct += r3.distinct
+        r2.generated += r3.generated
     cases = [{"id": i, "sql": sql_of(p), "tables": tables()} for i, p in enumerate(qs)]
     cp2 = os.path.join(wd, "queries.ndjson")
     C.write_ndjson(cp2, cases)
@@ -103,7 +113,8 @@ def run(tier, t0):
     for i, judge in fails2:
         p, c = qs[i - 1], cases[i - 1]
         shape = "+".join([j["k"] for j in p["joins"]]) or "single"
-        key = f"names/{judge}/{shape}{'+cte_shadow' if p['cte'] else ''}/{'qualified' if p['ref']['q'] else 'unqualified'}"
+        pathed = "+path" if any(it["t"] in ("s.w", "w") for it in p["items"]) else ""
+        key = f"names/{judge}/{shape}{'+cte_shadow' if p['cte'] else ''}{pathed}{'+cte_w' if p.get('ctew') else ''}/{'qualified' if p['ref']['q'] else 'unqualified'}"
         rep.fail(key, f"judge {judge} failed: {c['sql']}", {"engine": "sql-run", "case": {"sql": c["sql"], "tables": c["tables"], "rule": p["res"], "observed": recs[i - 1]}})
     code, viol, known = rep.finish()
     outc = {}
@@ -115,7 +126,7 @@ def run(tier, t0):
         "samples": [maps[len(maps) // 2], cases[len(cases) // 3]["sql"], cases[-1]["sql"]],
         "evaluations": sum(len(o["lookups"]) for o in obs) + len(cases),
         "distinct_nontrivial": sum(1 for o in obs if len(o["entries"]) >= 2) + sum(1 for rr in recs if rr["pred"] != "bound" or rr["has_value"]),
-        "rule": "every path map over a 2-letter alphabet with paths of length <= MaxLen reachable by insert / prepend / filter, every lookup path of length 0..MaxLen+1; every FROM chain of <= MaxItems items over t(a,b), u(a,c), v(b,c) with aliases, CROSS / USING / NATURAL, with and without a CTE shadowing t, every reference n or q.n; non-trivial = map with at least two entries / reference that is ambiguous, unknown or bound with an observed marker",
+        "rule": "every path map over a 2-letter alphabet with paths of length <= MaxLen reachable by insert / prepend / filter, every lookup path of length 0..MaxLen+1; every FROM chain of <= MaxItems items over t(a,b), u(a,c), v(b,c) with aliases, CROSS / USING / NATURAL, with and without a CTE shadowing t, (two items) a base table under the path s.w referenced as s.w or w with and without a CTE named w, every reference n or q.n; non-trivial = map with at least two entries / reference that is ambiguous, unknown or bound with an observed marker",
         "exhaustive": True,
         "hierarchy": {"MaxLen": maxlen, "maps": len(maps), "lookups_judged": sum(len(o["lookups"]) for o in obs), "invariants": ["FoldIsRule", "ExactFirst", "NeverArbitrary"],
                       "action_coverage": {k: v for k, v in r.action_coverage().items() if k in ("Insert", "DoPrepend", "DoFilter")}},
@@ -124,7 +135,7 @@ def run(tier, t0):
         "failures_by_key": {k: v["count"] for k, v in rep.by_key.items()}, "known_findings_reproduced": known, "checker_cmd": tr.cmd,
     }
     C.write_evidence(PID, tier, "model_checking", coverage,
-                     ["marker database: single-row tables with a = 1, b = 2, c = 3 (the CTE maps u.c to t.b)",
+                     ["marker database: single-row tables with a = 1, b = 2, c = 3 (the CTE maps u.c to t.b); s.w has a = 4, b = 5 and lives in an attached SQLite database named s",
                       "a panic while compiling an ambiguous or unknown reference counts as a refusal here (the panic itself is reported by C18)",
                       "SQLite's own name resolution is recorded as a second opinion on the rule (disagreements are reported as drift)"], time.time() - t0, viol)
     return code
